@@ -277,7 +277,9 @@ func (r *receiver) run(ctx context.Context) error {
 						}
 						metadataParents.pop()
 					}
-					if isDir {
+					// only directories that are not forwarded right away need to
+					// be remembered for a later replay
+					if isDir && metaOnly {
 						metadataParents.push(cp)
 					}
 					if metaOnly {
